@@ -10,6 +10,12 @@ Base/Res.vos Base/Res.vok Base/Res.required_vos: Base/Res.v
 Gen/Consts.vo Gen/Consts.glob Gen/Consts.v.beautified Gen/Consts.required_vo: Gen/Consts.v 
 Gen/Consts.vio: Gen/Consts.v 
 Gen/Consts.vos Gen/Consts.vok Gen/Consts.required_vos: Gen/Consts.v 
+Gen/WriterTab.vo Gen/WriterTab.glob Gen/WriterTab.v.beautified Gen/WriterTab.required_vo: Gen/WriterTab.v 
+Gen/WriterTab.vio: Gen/WriterTab.v 
+Gen/WriterTab.vos Gen/WriterTab.vok Gen/WriterTab.required_vos: Gen/WriterTab.v 
+Model/MsgWriter.vo Model/MsgWriter.glob Model/MsgWriter.v.beautified Model/MsgWriter.required_vo: Model/MsgWriter.v Base/Res.vo Base/Octets.vo Gen/Consts.vo Gen/WriterTab.vo Model/NameWire.vo
+Model/MsgWriter.vio: Model/MsgWriter.v Base/Res.vio Base/Octets.vio Gen/Consts.vio Gen/WriterTab.vio Model/NameWire.vio
+Model/MsgWriter.vos Model/MsgWriter.vok Model/MsgWriter.required_vos: Model/MsgWriter.v Base/Res.vos Base/Octets.vos Gen/Consts.vos Gen/WriterTab.vos Model/NameWire.vos
 Model/NameWire.vo Model/NameWire.glob Model/NameWire.v.beautified Model/NameWire.required_vo: Model/NameWire.v Base/Res.vo Base/Octets.vo Gen/Consts.vo
 Model/NameWire.vio: Model/NameWire.v Base/Res.vio Base/Octets.vio Gen/Consts.vio
 Model/NameWire.vos Model/NameWire.vok Model/NameWire.required_vos: Model/NameWire.v Base/Res.vos Base/Octets.vos Gen/Consts.vos
